@@ -745,6 +745,14 @@ pub fn wal_frames(bytes: &[u8]) -> Vec<(std::ops::Range<usize>, u32)> {
     out
 }
 
+/// Image of one log entry: canonical structure plus the `Debug` rendering (a second opinion that
+/// does not go through `Serialize`; left out for `MetadataSet`, whose `TensorData` is a hash map).
+pub fn wal_image<T: serde::Serialize + std::fmt::Debug>(e: &T) -> crate::canon::Canon {
+    let d = format!("{e:?}");
+    let dbg = if d.starts_with("MetadataSet") { String::new() } else { d };
+    crate::canon::Canon::Seq(vec![canon(e), crate::canon::Canon::Str(dbg)])
+}
+
 /// Entries of any of the three logs, as canonical images.
 pub fn wal_replay(kind: WalKind, verify: bool, path: &std::path::Path) -> Result<Vec<crate::canon::Canon>, String> {
     match kind {
@@ -752,30 +760,30 @@ pub fn wal_replay(kind: WalKind, verify: bool, path: &std::path::Path) -> Result
             let mut cfg = tensor_store::wal::WalConfig::default();
             cfg.verify_on_replay = verify;
             let w = tensor_store::wal::TensorWal::open(path, cfg).map_err(|e| e.to_string())?;
-            w.replay().map(|v| v.iter().map(canon).collect()).map_err(|e| e.to_string())
+            w.replay().map(|v| v.iter().map(wal_image).collect()).map_err(|e| e.to_string())
         },
         WalKind::Raft => {
             let mut cfg = tensor_chain::raft_wal::WalConfig::default();
             cfg.verify_on_replay = verify;
             cfg.pre_check_space = false;
             let w = tensor_chain::raft_wal::RaftWal::open_with_config(path, cfg).map_err(|e| e.to_string())?;
-            w.replay().map(|v| v.iter().map(canon).collect()).map_err(|e| e.to_string())
+            w.replay().map(|v| v.iter().map(wal_image).collect()).map_err(|e| e.to_string())
         },
         WalKind::Tx => {
             let mut cfg = tensor_chain::raft_wal::WalConfig::default();
             cfg.verify_on_replay = verify;
             cfg.pre_check_space = false;
             let w = tensor_chain::tx_wal::TxWal::open_with_config(path, cfg).map_err(|e| e.to_string())?;
-            w.replay().map(|v| v.iter().map(canon).collect()).map_err(|e| e.to_string())
+            w.replay().map(|v| v.iter().map(wal_image).collect()).map_err(|e| e.to_string())
         },
     }
 }
 
 fn wal_payload_decodes(kind: WalKind, payload: &[u8]) -> Option<crate::canon::Canon> {
     match kind {
-        WalKind::Store => bitcode::deserialize::<tensor_store::wal::WalEntry>(payload).ok().map(|e| canon(&e)),
-        WalKind::Raft => bitcode::deserialize::<tensor_chain::raft_wal::RaftWalEntry>(payload).ok().map(|e| canon(&e)),
-        WalKind::Tx => bitcode::deserialize::<tensor_chain::tx_wal::TxWalEntry>(payload).ok().map(|e| canon(&e)),
+        WalKind::Store => bitcode::deserialize::<tensor_store::wal::WalEntry>(payload).ok().map(|e| wal_image(&e)),
+        WalKind::Raft => bitcode::deserialize::<tensor_chain::raft_wal::RaftWalEntry>(payload).ok().map(|e| wal_image(&e)),
+        WalKind::Tx => bitcode::deserialize::<tensor_chain::tx_wal::TxWalEntry>(payload).ok().map(|e| wal_image(&e)),
     }
 }
 
